@@ -4,11 +4,17 @@
    check_spec : every observation agrees with the mapping the (current) scope denotes / with volatility /
                 with the rebuilt scope — computed from Spec.v only. *)
 From Coq Require Import ZArith NArith QArith Bool List.
-Require Import QV.common.Util QV.C13.Model QV.C13.Pure QV.C13.Spec.
+Require Import QV.common.Util QV.C13.Model QV.C13.Pure QV.C13.Spec QV.C13.Heap QV.C13.HeapCC QV.C13.HeapCheck QV.C13.TEq.
 Import ListNotations.
 
+(* CHist: `l` = the identities of the Python objects the harness built for `s` (equal ids = one object, i.e. one set of
+          memoisation fields); only VALUES are observed, never the identity of a returned scope.
+   CEq:   two scopes with the number kind of the expression constants; `must` = the harness built b as a twin of a that
+          has to be equal (same / other insertion orders / other number types of DictScope constants and loop index
+          values / exact constants given as TimeType or numpy integers); e = (a == b), e' = (b == a), h = equal hashes *)
 Inductive case :=
-| CHist (s : scope) (ops : list op) (impl : list obs)
+| CHist (s : scope) (l : lab) (ops : list op) (impl : list obs)
+| CEq (a b : tscope) (must : bool) (e e' h : bool)
 | CCrash.
 
 (* ---- canonical forms: key lists / dictionaries are compared as sorted sequences (with multiplicity) *)
@@ -78,11 +84,19 @@ Fixpoint corr_run (s : scope) (ops : list op) (model impl : list obs) : bool :=
   | _, _, _ => false
   end.
 
+(* first free object id of a labelled structure *)
+Definition next_id (s : scope) (l : lab) : N := N.succ (fold_right (fun p m => N.max (fst p) m) 0%N (mkreg s l)).
+
 Definition check_corr (c : case) : bool :=
   match c with
-  | CHist s ops impl =>
+  | CHist s l ops impl =>
       corr_run s ops (run (s, cempty) ops) impl       (* the model with memoisation fields as state *)
       && corr_run s ops (prun s ops) impl             (* the same access paths without any memoisation *)
+      (* the explicit heap: shared objects have ONE set of memoisation fields, change_constants / overwrite allocate;
+         the labelling must pass the admission test (ProofsHeapCheck.lab_okb_sound) *)
+      && lab_okb s l (next_id s l)
+      && corr_run s ops (hrun_full (s, l, [], next_id s l) ops) impl
+  | CEq a b _ e e' _ => Bool.eqb (tscope_eqb a b) e && Bool.eqb (tscope_eqb b a) e'
   | CCrash => false
   end.
 
@@ -188,8 +202,24 @@ Fixpoint spec_run (s : scope) (ops : list op) (impl : list obs) : bool :=
   | _, _ => false
   end.
 
+(* what equality must imply, from Spec.v only: the same mapping (or none on both sides), the same names, the same
+   volatile parameters *)
+Definition sem_equal (a b : scope) : bool :=
+  match denote_scope a, denote_scope b with
+  | Ok d1, Ok d2 => dict_seq_eqb d1 d2
+  | Err _, Err _ => true
+  | _, _ => false
+  end
+  && keys_eqb (domain a) (domain b)
+  && forallb (fun x => Bool.eqb (depends_on_volatile a x) (depends_on_volatile b x)) (names_of a ++ names_of b).
+
 Definition check_spec (c : case) : bool :=
   match c with
-  | CHist s ops impl => spec_run s ops impl
+  | CHist s _ ops impl => spec_run s ops impl
+  | CEq a b must e e' h =>
+      Bool.eqb e e'                                   (* symmetric *)
+      && implb must e                                 (* a twin is equal *)
+      && implb e h                                    (* equal scopes hash alike *)
+      && implb e (sem_equal (erase_s a) (erase_s b))  (* equal scopes are the same mapping with the same volatility *)
   | CCrash => false
   end.
